@@ -212,13 +212,15 @@ m = {
               "baseline_off_cmd": "cd /repo && /venv/bin/python -m pytest -q -p no:cacheprovider",
               "source_commits": [], "add_only": True},
     "engines": [{"name": "sa", "path": "sa/", "serves_properties": sorted(CLAIMS),
-                 "kind_free_text": "repository-specific static analyser: ast loader/resolver, abstract interpreter "
-                                   "(origin/kind/shape/degree/linearity/parity/sign/monotone domains), typestate facts, "
-                                   "NumPy/SciPy API table"}],
+                 "kind_free_text": "repository-specific static analyser: ast loader/resolver with a syntax-tree normaliser "
+                                   "(new-helper inlining, equivalent spellings; a no-op on the pinned tree), abstract interpreter "
+                                   "(origin/kind/shape/degree/linearity/parity/sign/monotone/piece-structure domains), typestate "
+                                   "facts, branch-oracle and scenario runs, polynomial normal forms, NumPy/SciPy API table"}],
     "checks": [],
     "notes": "All checks: ./check <id> [--tier quick|thorough]; exit 0 held / 1 VIOLATION / 2 ANALYSIS-ERROR "
              "(inconclusive, never a pass). Self-test of the rules: python -m selftest.run (mutants, twins and the 80 seeded "
-             "changes kept under seeded/, see seeded/MATRIX.md). known_findings.json: one known finding (K1, C20), twelve fixed.",
+             "changes kept under seeded/, see seeded/MATRIX.md, and the 60 behaviour-preserving twins kept under twins/, which must "
+             "stay silent). known_findings.json: one known finding (K1, C20), twelve fixed.",
     "not_applicable": [],
 }
 for i in ids:
